@@ -1,1 +1,282 @@
-/-! STUB — property C09 is not built yet. -/
+import Martian.Lemmas.H2Relay
+import Martian.Generated.H2Relay
+/-!
+C09 — HTTP/2 relay obeys receiver windows, returns exact credit, never strands data.
+
+Theorems about one relay (`Model/H2Relay.lean`: `rstep`, transcribed from `h2/relay.go`) under ANY
+finite history `is : List RIn` of sink calls (DATA of any size, headers, …), direct writes and peer
+calls (WINDOW_UPDATE on any stream or the connection with any increment, INITIAL_WINDOW_SIZE and
+MAX_FRAME_SIZE changes), in any interleaving, every pass over the Go map of output buffers taking
+its iteration order as an argument (`OkRun` only asks that a pass visits every buffer).
+"Enough credit" is read at frame granularity (DESIGN §3 C09, §7).
+Only property theorems and non-vacuity examples live here.
+-/
+namespace Martian.Props.C09
+open Martian Martian.H2Relay
+
+/-- Sum of the WINDOW_UPDATE increments the receiver sent for stream `s` (`s = 0`: connection). -/
+def wuTotal (s : Nat) : List RIn → Int
+  | [] => 0
+  | .windowUpdate sid inc _ :: is => (if sid = s then (inc : Int) else 0) + wuTotal s is
+  | _ :: is => wuTotal s is
+
+/-- WINDOW_UPDATE frames among the direct writes, as (stream, increment). -/
+def credits : List Ctl → List (Nat × Nat)
+  | [] => []
+  | .windowUpdate s n :: l => (s, n) :: credits l
+  | _ :: l => credits l
+
+/-- (stream, flow-controlled length) of the DATA frames the peer relay accepted, zero-length ones
+excepted (a WINDOW_UPDATE of 0 is not a legal frame). -/
+def dataAccepted : List RIn → List (Nat × Nat)
+  | [] => []
+  | .credit s n :: is => (if n = 0 then [] else [(s, n)]) ++ dataAccepted is
+  | _ :: is => dataAccepted is
+
+private theorem addWin_wu (r : Relay) (s : Nat) (inc : Int) (t : Nat) :
+    (addWin r s inc).wu t = r.wu t + (if s = t then inc else 0) := by
+  by_cases h : t = s
+  · subst h; simp [addWin]
+  · have h' : ¬ s = t := fun e => h e.symm
+    simp [addWin, h, h']
+
+private theorem rstep_wu (r : Relay) (i : RIn) (t : Nat) :
+    (rstep r i).wu t = r.wu t + wuTotal t [i] := by
+  cases i with
+  | windowUpdate sid inc order =>
+    simp only [rstep, emitStream_wu, addWin_wu, getOB_wu, wuTotal]
+    split <;> simp
+  | credit sid flow => simp only [rstep, wuTotal]; split <;> simp
+  | _ => simp [rstep, wuTotal]
+
+private theorem rstep_wuConn (r : Relay) (i : RIn) :
+    (rstep r i).wuConn = r.wuConn + wuTotal 0 [i] := by
+  cases i with
+  | windowUpdate sid inc order =>
+    simp only [rstep, emitStream_wuConn, wuTotal]
+    have : (addWin (getOB (if sid = 0 then sendQueued { r with connWin := r.connWin + inc, wuConn := r.wuConn + inc } order else r) sid) sid inc).wuConn
+        = (if sid = 0 then sendQueued { r with connWin := r.connWin + inc, wuConn := r.wuConn + inc } order else r).wuConn := by
+      simp [addWin]
+    rw [this]
+    split <;> simp
+  | credit sid flow => simp only [rstep, wuTotal]; split <;> simp
+  | _ => simp [rstep, wuTotal]
+
+private theorem wuTotal_cons (t : Nat) (i : RIn) (is : List RIn) :
+    wuTotal t (i :: is) = wuTotal t [i] + wuTotal t is := by
+  cases i <;> simp [wuTotal]
+
+private theorem run_wu (r : Relay) (is : List RIn) (t : Nat) :
+    (run r is).wu t = r.wu t + wuTotal t is ∧ (run r is).wuConn = r.wuConn + wuTotal 0 is := by
+  induction is generalizing r with
+  | nil => simp [run, wuTotal]
+  | cons i is ih =>
+    have := ih (rstep r i)
+    simp only [run, List.foldl_cons] at this ⊢
+    rw [this.1, this.2, rstep_wu, rstep_wuConn]
+    have e1 := wuTotal_cons t i is
+    have e2 := wuTotal_cons 0 i is
+    constructor <;> omega
+
+/-- **Ledger.** After any history, on the connection and on every stream that has an output
+buffer: bytes emitted + current send window = what the receiver granted (initial window in force,
+65535 for the connection, plus all its WINDOW_UPDATE increments). -/
+theorem ledger (is : List RIn) (hok : OkRun {} is) :
+    let r := run {} is
+    flow r.emitted + r.connWin = 65535 + wuTotal 0 is ∧
+    ∀ s ∈ r.keys, flow (onS s r.emitted) + (r.ob s).win = r.initWin + wuTotal s is := by
+  have hg := (run_invariant is good0_init allstuck_init hok).1
+  refine ⟨?_, ?_⟩
+  · have := hg.ledgerC
+    rw [(run_wu {} is 0).2] at this
+    simpa using this
+  · intro s hs
+    have := hg.ledgerS s hs
+    rw [(run_wu {} is s).1] at this
+    simpa using this
+
+/-- **Never more than granted.** The connection never carries more flow-controlled bytes than the
+receiver granted. A stream carries at most its grant plus the amount by which the receiver
+later lowered INITIAL_WINDOW_SIZE (bytes legitimately sent before the decrease, RFC 7540 §6.9.2;
+`lowered = 0` when the receiver never lowers it). -/
+theorem never_exceeds_grant (is : List RIn) (hok : OkRun {} is) :
+    let r := run {} is
+    flow r.emitted ≤ 65535 + wuTotal 0 is ∧
+    ∀ s ∈ r.keys, flow (onS s r.emitted) ≤ r.initWin + wuTotal s is + r.lowered := by
+  have hg := (run_invariant is good0_init allstuck_init hok).1
+  have hl := ledger is hok
+  refine ⟨?_, ?_⟩
+  · have := hg.connNonneg; have := hl.1; omega
+  · intro s hs
+    have := hg.winLower s hs; have := hl.2 s hs; omega
+
+/-- **Every emission fits.** Whatever `emitEligibleFrames` puts on the output channel fitted both
+windows when the pass started (so it certainly fits what is left when it is its turn), and a
+non-negative window never becomes negative. -/
+theorem every_emission_fits (conn w : Int) (q : List QFrame) :
+    (∀ f ∈ (emit conn w q).2.2.2, (f.size : Int) ≤ conn ∧ (f.size : Int) ≤ w) ∧
+    (0 ≤ conn → 0 ≤ (emit conn w q).1) ∧ (0 ≤ w → 0 ≤ (emit conn w q).2.1) := by
+  have := emit_spec conn w q
+  simp only at this
+  obtain ⟨-, -, -, -, h5, h6, h7⟩ := this
+  refine ⟨h7, h5, ?_⟩
+  intro hw; rcases h6 with h | h <;> omega
+
+private theorem mem_mkData {sid : Nat} {es : Bool} {cs : List Bytes} {f : QFrame} (h : f ∈ mkData sid es cs) :
+    ∃ c ∈ cs, ∃ e, f = .data sid e c := by
+  induction cs with
+  | nil => simp [mkData] at h
+  | cons c rest ih =>
+    cases rest with
+    | nil => simp [mkData] at h; exact ⟨c, by simp, es, h⟩
+    | cons c2 rest2 =>
+      simp only [mkData, List.mem_cons] at h
+      rcases h with h | h
+      · exact ⟨c, by simp, false, h⟩
+      · obtain ⟨c', hc', e, he⟩ := ih (by simpa [mkData] using h)
+        exact ⟨c', by simp [hc'], e, he⟩
+
+private theorem foldl_max_le (l : List Nat) (a m : Nat) (ha : a ≤ m) (hl : ∀ x ∈ l, x ≤ m) : l.foldl max a ≤ m := by
+  induction l generalizing a with
+  | nil => simpa
+  | cons x rest ih =>
+    simp only [List.foldl_cons]
+    apply ih
+    · have := hl x (by simp); omega
+    · intro y hy; exact hl y (by simp [hy])
+
+/-- **Frame size.** Every frame a relay input adds to the queues (DATA, HEADERS / PUSH_PROMISE with
+their CONTINUATIONs, including the 5 priority / 4 promised-id octets) has payloads of at most
+the receiver's MAX_FRAME_SIZE in force when it is enqueued (any legal value, ≥ 5 suffices). -/
+theorem frame_within_max (r : Relay) (i : RIn) (hm : 5 ≤ r.maxFrame) :
+    ∀ f ∈ acceptedOf r i, f.wireMax ≤ r.maxFrame := by
+  intro f hf
+  cases i with
+  | data sid payload es =>
+    obtain ⟨c, hc, e, rfl⟩ := mem_mkData hf
+    exact dataChunks_le _ _ _ c hc
+  | header sid fields es prio encoded =>
+    simp only [acceptedOf, List.mem_singleton] at hf
+    subst hf
+    simp only [QFrame.wireMax, splitIntoChunks]
+    apply foldl_max_le
+    · simp only [List.length_take]; split <;> omega
+    · intro x hx
+      simp only [List.mem_map] at hx
+      obtain ⟨c, hc, rfl⟩ := hx
+      exact chunkRest_le _ _ _ c hc
+  | push sid promised fields encoded =>
+    simp only [acceptedOf, List.mem_singleton] at hf
+    subst hf
+    simp only [QFrame.wireMax, splitIntoChunks]
+    apply foldl_max_le
+    · simp only [List.length_take]; omega
+    · intro x hx
+      simp only [List.mem_map] at hx
+      obtain ⟨c, hc, rfl⟩ := hx
+      exact chunkRest_le _ _ _ c hc
+  | priority sid p => simp [acceptedOf] at hf; subst hf; simp [QFrame.wireMax]
+  | rst sid code => simp [acceptedOf] at hf; subst hf; simp [QFrame.wireMax]
+  | _ => simp [acceptedOf] at hf
+
+/-- … and nothing else is ever emitted: an emitted frame is one that was accepted. -/
+theorem emitted_was_accepted (is : List RIn) (hok : OkRun {} is) :
+    ∀ f ∈ (run {} is).emitted, f ∈ (run {} is).accepted := by
+  have hg := (run_invariant is good0_init allstuck_init hok).1
+  intro f hf
+  have h1 : f ∈ onS f.sid (run {} is).emitted := by simp [onS, hf]
+  have h2 : f ∈ onS f.sid (run {} is).accepted := by
+    rw [← hg.conserve f.sid]; simp [h1]
+  unfold onS at h2
+  exact (List.mem_filter.mp h2).1
+
+private theorem rstep_wrote (r : Relay) (i : RIn) (hi : ∀ s n, i ≠ .ctl (.windowUpdate s n)) :
+    credits (rstep r i).wrote = credits r.wrote ++ (dataAccepted [i]).flatMap (fun p => [(0, p.2), (p.1, p.2)]) := by
+  have happ : ∀ a b : List Ctl, credits (a ++ b) = credits a ++ credits b := by
+    intro a b
+    induction a with
+    | nil => simp [credits]
+    | cons c a ih => cases c <;> simp [credits, ih]
+  cases i with
+  | ctl c =>
+    cases c with
+    | windowUpdate s n => exact absurd rfl (hi s n)
+    | _ => simp [rstep, happ, credits, dataAccepted]
+  | credit sid flow =>
+    simp only [rstep, dataAccepted]
+    split <;> simp [happ, credits]
+  | windowUpdate sid inc order =>
+    simp only [rstep, emitStream_wrote, dataAccepted]
+    have : ∀ r1 : Relay, (addWin (getOB r1 sid) sid inc).wrote = r1.wrote := by intro r1; simp [addWin]
+    rw [this]; split <;> simp
+  | _ => simp [rstep, dataAccepted]
+
+private theorem dataAccepted_cons (i : RIn) (is : List RIn) :
+    dataAccepted (i :: is) = dataAccepted [i] ++ dataAccepted is := by
+  cases i <;> simp [dataAccepted]
+
+/-- **Exact credit.** The WINDOW_UPDATE frames a relay writes to the sender are exactly, in order,
+one for the connection and one for the stream per DATA frame accepted, each with that frame's
+whole flow-controlled length (payload + padding + pad-length octet, see `flowLen` and
+`dispatch`) — no more and no less. -/
+theorem credit_returned_exact (is : List RIn) (hok : OkRun {} is) :
+    credits (run {} is).wrote = (dataAccepted is).flatMap (fun p => [(0, p.2), (p.1, p.2)]) := by
+  have gen : ∀ (r : Relay) (is : List RIn), OkRun r is →
+      credits (run r is).wrote = credits r.wrote ++ (dataAccepted is).flatMap (fun p => [(0, p.2), (p.1, p.2)]) := by
+    intro r is
+    induction is generalizing r with
+    | nil => simp [run, dataAccepted]
+    | cons i is ih =>
+      intro hok
+      have := ih (rstep r i) hok.2
+      simp only [run, List.foldl_cons] at this ⊢
+      rw [this, rstep_wrote r i hok.1.2, dataAccepted_cons i is]
+      simp
+  have := gen {} is hok
+  simpa [credits] using this
+
+/-- The flow-controlled length handed to the credit is the frame header length. -/
+theorem credit_is_flow_controlled_length (d : DState) (sid : Nat) (es : Bool) (payload : Bytes) (pad : Option Nat) :
+    (dispatch d (.data sid es payload pad)).2 = [.data sid (flowLen payload pad) payload es] ∧
+    flowLen payload none = payload.length ∧ ∀ n, flowLen payload (some n) = payload.length + n + 1 := by
+  simp [dispatch, flowLen]
+
+/-- **Nothing eligible is stranded.** After every operation, on every stream, the output queue is
+empty or its head frame does not fit the stream window or the connection window: data for which
+the receiver has granted enough credit has been put on the output channel, without further input. -/
+theorem no_eligible_frame_stranded (is : List RIn) (hok : OkRun {} is) (s : Nat) :
+    let r := run {} is
+    (r.ob s).q = [] ∨ ∃ f q', (r.ob s).q = f :: q' ∧ ((r.connWin < f.size) ∨ ((r.ob s).win < f.size)) := by
+  have hs := (run_invariant is good0_init allstuck_init hok).2 s
+  rcases hs with h | ⟨f, q', hq, hf⟩
+  · exact Or.inl h
+  · refine Or.inr ⟨f, q', hq, ?_⟩
+    simp only [fits, Bool.and_eq_false_iff, decide_eq_false_iff_not] at hf
+    omega
+
+/-! ### Non-vacuity: the hypotheses are satisfiable and the interesting branches are reached -/
+
+/-- A history with a zero initial window, blocked DATA, a one-byte window and a connection pass. -/
+def sample : List RIn :=
+  [.initWin 0 [], .data 1 [1, 2, 3] false, .data 3 [4] true, .windowUpdate 3 1 [],
+   .credit 1 16, .windowUpdate 0 10 [3, 1], .initWin 2 [1, 3, 0]]
+
+example : OkRun {} sample := okRunB_sound _ _ (by decide)
+
+example : ((run {} sample).emitted.map QFrame.size, ((run {} sample).ob 1).q.length) = ([1], 1) := by decide
+
+/-! ### Facts regenerated from `/repo` on every run (`go/cmd/vextract/facts_c08.go`) -/
+
+/-- Initial windows and frame size of `h2/relay.go` are the model's. -/
+theorem facts_flow_constants :
+    Generated.H2Relay.initialMaxFrameSize = ({} : Relay).maxFrame ∧
+    Generated.H2Relay.defaultInitialWindowSize = ({} : Relay).initWin ∧
+    (Generated.H2Relay.defaultInitialWindowSize : Int) = ({} : Relay).connWin := by
+  decide
+
+/-- `sendWindowUpdates` computes the credit from the frame header length (F09 fix), which is what
+`dispatch` passes as `flowLen`. -/
+theorem facts_credit_uses_frame_header_length : Generated.H2Relay.creditUsesFrameHeaderLength = true := by
+  decide
+
+end Martian.Props.C09
